@@ -162,3 +162,17 @@ func VerifCheckRow(cols []int) (placed []int, panicked bool) {
 	}
 	return placed, false
 }
+
+// VerifRangeRefToCoordinates, VerifCoordinatesToRangeRef and VerifSortCoordinates
+// re-export the range codecs.
+func VerifRangeRefToCoordinates(ref string) ([]int, error) { return rangeRefToCoordinates(ref) }
+
+func VerifCoordinatesToRangeRef(coordinates []int, abs bool) (string, error) {
+	return coordinatesToRangeRef(coordinates, abs)
+}
+
+func VerifSortCoordinates(coordinates []int) ([]int, error) {
+	c := append([]int{}, coordinates...)
+	err := sortCoordinates(c)
+	return c, err
+}
